@@ -89,6 +89,7 @@ type leaf struct {
 }
 
 // enumeration order of the alphabets: the first s entries form the reduced alphabet of size s
+const fullLeaves = 36 // 3 kinds x 6 patterns x 2 behaviours
 var prefixOrder = []string{"/api", "/:t", "/", "/api/", "/API", "/a-b"}
 
 var leafOrder = func() []leaf {
@@ -103,7 +104,7 @@ var leafOrder = func() []leaf {
 		seen[l] = true
 	}
 	for _, k := range []uint8{kGET, kUSE, kALL} {
-		for _, p := range []string{"", "/", "/x", "/:id", "/*"} {
+		for _, p := range []string{"", "/", "/x", "/:id", "/*", "/X"} { // "/X": letter case inside a sub-app's own pattern
 			for _, nx := range []bool{false, true} {
 				l := leaf{k, p, nx}
 				if !seen[l] {
@@ -154,7 +155,7 @@ type policy struct {
 	nPrefix           func(c, n int) int // 6 = full, 3 = reduced
 	nGM               func(c, n int) int // mount-from-group letters (quick tier only; the thorough tier nests for real)
 	nMM               func(c, n int) int // mount-in-mount letters (quick tier only)
-	nLeaf             func(c, n int) int // 30 = full
+	nLeaf             func(c, n int) int // fullLeaves = full
 }
 
 func quickPolicy() policy {
@@ -183,13 +184,13 @@ func quickPolicy() policy {
 		nLeaf: func(c, n int) int {
 			switch {
 			case c == 1 && n <= 1:
-				return 30
+				return fullLeaves
 			case c == 1 && n == 2:
 				return 15
 			case c == 1:
 				return 5
 			case n == 0:
-				return 30
+				return fullLeaves
 			case n == 1:
 				return 20
 			case n == 2:
@@ -212,11 +213,11 @@ func thoroughPolicy() policy {
 		nLeaf: func(c, n int) int {
 			switch {
 			case c == 1 && n <= 2:
-				return 30
+				return fullLeaves
 			case c == 1:
 				return 10
 			case c == 2 && n <= 1:
-				return 30
+				return fullLeaves
 			case c == 2 && n == 2:
 				return 8
 			case c == 2:
